@@ -76,7 +76,7 @@ class C17(Plugin):
         early = case[4] if len(case) > 4 else len(recs)
         if early < len(recs):
             paths = paths[:len(paths) // 2] if len(paths) % 2 == 0 and paths[:len(paths) // 2] == paths[len(paths) // 2:] else paths
-        c = curies.Converter(qprops.mk_records(recs[:early]), delimiter=d)
+        c = curies.Converter(qprops.mk_records(recs[:early]), **qprops.flags(delimiter=d))
         fl = get_flask_app(c).test_client()
         fa = TestClient(get_fastapi_app(c))
         expands, rows, asked = [], [], []
